@@ -20,6 +20,8 @@
    - observers of (local thin waist l, observed thin waist x) = the distinct
      observer groups (IPv4 address, or IPv6 /56) of the connections currently
      vouching for x on l.
+   - Addrs(0), as a multiset, is covered by the per-local AddrsFor answers of
+     the same moment (see check_cover).
    - every address returned by AddrsFor(l/rest) and Addrs(0) has at least
      [thresh] observers for the local thin waist it is returned for; AddrsFor
      returns at most three, in non-increasing order of observers, and no
@@ -190,10 +192,49 @@ Fixpoint check_fors (cfg : config) (cred : list (Z * (Z * Z))) (i : Z)
   | _, _ => [-2]
   end.
 
-(* [] = fine; [i] = AddrsFor of query i violates; [-1] = Addrs(0) violates *)
+(* Addrs(0) per local address.  The flat list carries no attribution of its
+   elements to local addresses; the attribution used is the implementation's own
+   per-local answers of the same moment (each of them judged in full by
+   check_for: threshold, at most three, most-observed first): as a multiset,
+   Addrs(0) must be covered by the union, over the distinct listen addresses
+   la, of AddrsFor(la) joined with la's rest.  So Addrs(0) reports for no local
+   address more than (at most three, judged) AddrsFor reports for it.
+   Applied when every listen address is among the queried ones. *)
+Definition answer_for (qs : list laddr) (fs : list (list Z)) (la : laddr) : list Z :=
+  match find (fun q : laddr * list Z => laddr_eqb (fst q) la) (combine qs fs) with
+  | Some (_, xs) => xs
+  | None => []
+  end.
+
+Fixpoint remove_one (y : Z * Z) (l : list (Z * Z)) : option (list (Z * Z)) :=
+  match l with
+  | [] => None
+  | a :: r => if pair_eqb y a then Some r
+              else match remove_one y r with Some r' => Some (a :: r') | None => None end
+  end.
+
+Fixpoint sub_ms (ys expect : list (Z * Z)) : bool :=
+  match ys with
+  | [] => true
+  | y :: r => match remove_one y expect with
+              | Some e' => sub_ms r e'
+              | None => false
+              end
+  end.
+
+Definition check_cover (cfg : config) (fs : list (list Z)) (ys : list (Z * Z)) : bool :=
+  let las := dedup_laddr [] (listen cfg) in
+  if forallb (fun la => existsb (laddr_eqb la) (queries cfg)) las then
+    sub_ms ys (flat_map (fun la : laddr => map (fun x => (x, snd la)) (answer_for (queries cfg) fs la)) las)
+  else true.
+
+(* [] = fine; [i] = AddrsFor of query i violates; [-1] = Addrs(0) violates
+   (membership / size); [-3] = Addrs(0) not covered by the per-local answers *)
 Definition mon_check (cfg : config) (m : mon) (ob : obs) : list Z :=
   match check_fors cfg (m_cred m) 0 (queries cfg) (o_for ob) with
-  | [] => if check_all cfg (m_cred m) (o_all ob) then [] else [-1]
+  | [] => if check_all cfg (m_cred m) (o_all ob) then
+            (if check_cover cfg (o_for ob) (o_all ob) then [] else [-3])
+          else [-1]
   | d => d
   end.
 
